@@ -181,10 +181,11 @@ func serveGuards(c *core.Ctx) {
 				return x != v
 			}
 		}
-		if ev(1) == pol && ev(2) != pol {
+		// representatives 0, 1 | 2, 3: the guard must separate HTTP/1.x from HTTP/2 *and later*
+		if ev(0) == pol && ev(1) == pol && ev(2) != pol && ev(3) != pol {
 			return true, true // fact says major < 2
 		}
-		if ev(1) != pol && ev(2) == pol {
+		if ev(0) != pol && ev(1) != pol && ev(2) == pol && ev(3) == pol {
 			return true, false // fact says major >= 2
 		}
 		return false, false
